@@ -352,7 +352,7 @@ def variants_for(ctx, sc, rng):
     n = sc.notes["n_defs"]
     idx = list(range(n))
     perms = []
-    if ctx.thorough and n <= 5:
+    if ctx.thorough and n <= 4:   # exhaustive over definition orders (<= 23 variants)
         perms = [list(p) for p in itertools.permutations(idx)][1:]
     else:
         seen = {tuple(idx)}
